@@ -23,7 +23,9 @@ def space(tier, seed):
               ('alias', ('cat', F('a', 1), ('lit', 'y')), 'Tot', 'AS'), ('alias', F('a', 2), 'low_1', 'as'), ('tuple', F('a', 1), F('a', 2)),
               # aliases on expressions whose syntax tree root is a boolean operator, a negation or a conditional
               ('alias', ('or', ('cmp', '==', F('a', 1), ('lit', k)), ('cmp', '==', F('a', 2), ('lit', k))), 'either', 'AS'), ('alias', ('not', ('cmp', '==', F('a', 1), ('lit', k))), 'neg', 'as'),
-              ('alias', ('ifelse', ('cmp', '==', F('a', 1), ('lit', k)), F('a', 2), ('lit', 'other')), 'pick', 'AS')]
+              ('alias', ('ifelse', ('cmp', '==', F('a', 1), ('lit', k)), F('a', 2), ('lit', 'other')), 'pick', 'AS'),
+              # aliases on method calls (the call node is visited before the alias marker when the tree is walked breadth-first)
+              ('alias', ('upper', F('a', 1)), 'up', 'AS'), ('alias', ('upper', ('cat', F('a', 2), F('a', 1))), 'both_up', 'as')]
     named = [('named', 'a', n1, 'attr'), ('named', 'a', n2, 'dq'), ('named', 'a', n3, 'sq')]
     joined = [F('b', 1), F('b', 3), F('b', 5), ('star', 'b'), ('bNR',)]     # b3: inside the narrow B? no - beyond it; inside the wide B; b5: beyond A, inside wide B
     joined_named = [('named', 'b', bn2, 'attr')]
